@@ -129,7 +129,7 @@ CHECKS.update({
             "DESIGN.md 3.7, 5/C12"),
     "C13": ("Lifecycle.tla, CalibScope.tla, Trace_Lifecycle.tla",
             "TLC model check (CalibrationScoped, InferencePure; CalibScope.tla: the enter / re-enter / reuse / exit / raise protocol alone, complete for histories of any length with nesting <= 4) + executed histories with exceptions raised inside forwards + TLC trace validation of torch's global registries",
-            "After every action of every history the harness reads torch's global forward (pre-)hook registries and the torch-function mode stack; TLC checks that they equal the baseline plus the number of open contexts "
+            "After every action of every history the harness reads torch's global forward (pre-)hook registries and the torch-function mode stack; TLC checks that leaving a context restores exactly what the matching enter found (a stack of snapshots; an exception restores what the outermost enter found; no other action changes them) "
             "(normal exit, nested, the same object entered again while open, exit by an exception raised in module k), that a forward outside calibration leaves every parameter / buffer / scale / qtype digest and its input unchanged, and that repeated evaluation is bit-identical.",
             "disable_extensions is outside the statement.",
             "DESIGN.md 3.7, 5/C13"),
